@@ -335,4 +335,127 @@ theorem partialTrace_tensor_left (a b t' : Tab) (os : List Bool) (ha : a.Valid) 
   · intro h1; exact InSpan.eqv _ _ h1 e
   · intro h1; exact InSpan.eqv _ _ h1 e.symm
 
+/-! ### … and tracing the left factor out gives back the right factor -/
+
+/-- above every inserted position the sites are shifted by the number of insertions -/
+theorem embedCols_high (rem : List Nat) (hpw : rem.Pairwise (· > ·)) (P' : PRow) (i : Nat) (h : ∀ a, a ∈ rem → a < i) :
+    (embedCols rem P').x i = P'.x (i - rem.length) ∧ (embedCols rem P').z i = P'.z (i - rem.length) := by
+  induction rem generalizing i with
+  | nil => exact ⟨rfl, rfl⟩
+  | cons q rest ih =>
+    have hp := List.pairwise_cons.mp hpw
+    have hq : q < i := h q List.mem_cons_self
+    have h1 : ¬ (i < q) := by omega
+    have h2 : i ≠ q := by omega
+    simp only [embedCols, PRow.insertCol, h1, h2, if_false, List.length_cons]
+    have := ih hp.2 (i - 1) (fun a ha => by have := hp.1 a ha; omega)
+    rw [show i - (rest.length + 1) = i - 1 - rest.length by omega]
+    exact this
+
+/-- the qubits of `b` inside `a ⊗ b` -/
+def rightSites (na nb : Nat) : List Nat := (List.range nb).map (fun x => na + x)
+
+theorem mem_rightSites (na nb j : Nat) : j ∈ rightSites na nb ↔ na ≤ j ∧ j < na + nb := by
+  unfold rightSites
+  simp only [List.mem_map, List.mem_range]
+  constructor
+  · rintro ⟨k, hk, rfl⟩; omega
+  · intro h; exact ⟨j - na, by omega, by omega⟩
+
+theorem mem_removalList_right (na nb j : Nat) : j ∈ removalList (na + nb) (rightSites na nb) ↔ j < na := by
+  rw [mem_removalList, mem_rightSites]
+  omega
+
+theorem removalList_right_length (na nb : Nat) : (removalList (na + nb) (rightSites na nb)).length = na := by
+  unfold removalList
+  rw [List.length_reverse, List.range_add, List.filter_append]
+  have h1 : (List.range na).filter (fun i => !(rightSites na nb).contains i) = List.range na := by
+    rw [List.filter_eq_self]
+    intro i hi
+    simp only [List.mem_range] at hi
+    have : i ∉ rightSites na nb := fun h => by have := (mem_rightSites na nb i).mp h; omega
+    simp [this]
+  have h2 : ((List.range nb).map (fun x => na + x)).filter (fun i => !(rightSites na nb).contains i) = [] := by
+    rw [List.filter_eq_nil_iff]
+    intro i hi
+    have : i ∈ rightSites na nb := hi
+    simp [this]
+  rw [h1, h2]
+  simp
+
+/-- the rows `I ⊗ Q` in the group of `a ⊗ b` are those with `Q` in the group of `b` -/
+theorem tensor_right_iff (a b : Tab) (ha : a.Valid) (ra : a.StabReal) (Q' : PRow) :
+    Grp (tensor2 a b) (Q'.shiftCols a.n) ↔ Grp b Q' := by
+  constructor
+  · intro h
+    obtain ⟨P, Q, hP, hQ, e⟩ := (tensor_grp a b _).mp h
+    have pz : ∀ j, j < a.n → P.x j = false ∧ P.z j = false := by
+      intro j hj
+      have := e.1 j (by omega)
+      simp only [tensorRow_x, tensorRow_z, hj, if_true, PRow.shiftCols] at this
+      exact ⟨this.1.symm, this.2.symm⟩
+    have p1 := grp_trivial_of_bits a ha ra P hP pz
+    have e2 : EqOn (a.n + b.n) (Q'.shiftCols a.n) (Q.shiftCols a.n) :=
+      e.trans ((tensorRow_congr a.n b.n P PRow.one Q Q p1 (EqOn.refl _ _)).trans (tensorRow_one_left a.n b.n Q))
+    refine InSpan.eqv _ _ hQ ⟨fun j hj => ?_, e2.2.1.symm, e2.2.2.symm⟩
+    have := e2.1 (a.n + j) (by omega)
+    have hlt : ¬ (a.n + j < a.n) := by omega
+    simp only [PRow.shiftCols, hlt, if_false, Nat.add_sub_cancel_left] at this
+    exact ⟨this.1.symm, this.2.symm⟩
+  · exact tensor_grp_right a b Q'
+
+/-- `a ⊗ b` is a product across the cut "sites of `a`" -/
+theorem tensor_factor_right (a b : Tab) (ha : a.Valid) (hb : b.Valid) (ra : a.StabReal) (rb : b.StabReal)
+    (A : List Nat) (hA : ∀ j, j < a.n + b.n → (j ∈ A ↔ j < a.n)) : Factor (tensor2 a b) A := by
+  intro P hP
+  obtain ⟨P1, Q1, hP1, hQ1, e⟩ := (tensor_grp a b P).mp hP
+  have r1 := grp_real a ha ra P1 hP1
+  have rQ := grp_real b hb rb Q1 hQ1
+  have rP : P.ip = false := by
+    have := e.2.2
+    rw [this]
+    unfold tensorRow
+    exact mul_real _ _ _ r1 rQ (sp_trunc_shift a.n b.n P1 Q1)
+  have sb : SameBits (a.n + b.n) (restrictOff A P) (Q1.shiftCols a.n) := by
+    intro j hj
+    have ej := e.1 j hj
+    by_cases hlt : j < a.n
+    · have hjA : j ∈ A := (hA j hj).mpr hlt
+      simp [restrictOff, hjA, PRow.shiftCols, hlt]
+    · have hjA : j ∉ A := fun h => hlt ((hA j hj).mp h)
+      simp only [tensorRow_x, tensorRow_z, hlt, if_false] at ej
+      simp [restrictOff, hjA, PRow.shiftCols, hlt, ej.1, ej.2]
+  have gl := tensor_grp_right a b Q1 hQ1
+  rcases eqOn_or_negate (a.n + b.n) _ _ sb (by rw [restrictOff_ip, rP]; exact rQ.symm) with e1 | e1
+  · exact Or.inl (InSpan.eqv _ _ gl e1.symm)
+  · refine Or.inr (InSpan.eqv _ _ gl ?_)
+    have := negate_congr _ _ _ e1
+    rw [negate_negate] at this
+    exact this.symm
+
+/-- **`partial_trace(tensor([a, b]), keep = sites of b)` is `b`** -/
+theorem partialTrace_tensor_right (a b t' : Tab) (os : List Bool) (ha : a.Valid) (hb : b.Valid) (ra : a.StabReal)
+    (rb : b.StabReal) (h : (tensor2 a b).partialTrace (rightSites a.n b.n) os = .ok t') :
+    t'.n = b.n ∧ ∀ Q', Grp t' Q' ↔ Grp b Q' := by
+  have hA : ∀ j, j < a.n + b.n → (j ∈ removalList (a.n + b.n) (rightSites a.n b.n) ↔ j < a.n) := by
+    intro j _; exact mem_removalList_right a.n b.n j
+  obtain ⟨n', g⟩ := partialTrace_factor_grp (tensor2 a b) t' (rightSites a.n b.n) os (tensor2_valid a b ha hb)
+    (tensor_stabReal a b ra rb) (tensor_factor_right a b ha hb ra rb _ hA) h
+  have hn : (tensor2 a b).n = a.n + b.n := rfl
+  rw [hn, removalList_right_length] at n'
+  refine ⟨by omega, fun Q' => ?_⟩
+  rw [g, hn, ← tensor_right_iff a b ha ra Q']
+  have hpw := removalList_desc (a.n + b.n) (rightSites a.n b.n)
+  have e : EqOn (a.n + b.n) (embedCols (removalList (a.n + b.n) (rightSites a.n b.n)) Q') (Q'.shiftCols a.n) := by
+    refine ⟨fun j _ => ?_, (embedCols_r _ Q').1, (embedCols_r _ Q').2⟩
+    by_cases hlt : j < a.n
+    · have := embedCols_idOn _ hpw Q' j ((mem_removalList_right a.n b.n j).mpr hlt)
+      simp [PRow.shiftCols, hlt, this.1, this.2]
+    · have := embedCols_high _ hpw Q' j (fun x hx => by have := (mem_removalList_right a.n b.n x).mp hx; omega)
+      rw [removalList_right_length] at this
+      simp [PRow.shiftCols, hlt, this.1, this.2]
+  constructor
+  · intro h1; exact InSpan.eqv _ _ h1 e
+  · intro h1; exact InSpan.eqv _ _ h1 e.symm
+
 end Graphiq.TabSpec
